@@ -650,7 +650,14 @@ func (st *State) havocModset(ms *modSet) {
 				return
 			}
 			arr := st.elemsArr(st.heap, es)
-			st.heapSet(elemsName(es), ArrSort(SRef, ArrSort(BV(64), es)), app("store", arr, en.ref, st.fresh("hv_elems", ArrSort(BV(64), es))))
+			na := st.fresh("hv_elems", ArrSort(BV(64), es))
+			st.heapSet(elemsName(es), ArrSort(SRef, ArrSort(BV(64), es)), app("store", arr, en.ref, na))
+			if tr := st.typedRef("ELEM", sl.Elem()); tr != "true" {
+				// whatever was written, the elements are typed objects that exist by now
+				el := app("select", na, "tq_k")
+				body := and(strings.ReplaceAll(tr, "ELEM", el), app("<", app("rid", el), st.allocTop))
+				st.assume(fmt.Sprintf("(forall ((tq_k (_ BitVec 64))) (! %s :pattern (%s)))", body, el))
+			}
 		case "map":
 			mt := en.T.Underlying().(*types.Map)
 			hasA, valA, ks, vs := st.mapArrays(st.heap, mt)
